@@ -32,7 +32,7 @@ def plan(tier, seed):
 
 def thresholds(tier):
   t = {"programs_completed_all_levels": 60, "proc2mngr_values_compared": 2000, "level_runs": 180, "taken_branches": 100,
-       "loads": 300, "stores": 300, "checksum_comparisons": 1000, "image_words_compared": 2000}
+       "loads": 300, "stores": 300, "checksum_comparisons": 1000, "image_words_compared": 2000, "programs_with_far_branches": 10}
   if tier == "thorough":
     t = {k: v * 30 for k, v in t.items()}
   return t
@@ -107,12 +107,32 @@ def gen_program(rng, size):
       prog.extend(body)
       prog.append(("addi", R_CNT, R_CNT, -1))
       prog.append(("bne", R_CNT, 0, -4 * (len(prog) - start)))
+  if rng.random() < 0.25:
+    # branches whose target is 2 KiB or more away (bit 11 and up of the B-type immediate)
+    k = rng.randrange(513, 700)
+    filler = []
+    for j in range(k):
+      c = rng.random()
+      filler.append(("csrw", rv0ref.PROC2MNGR, rng.choice(WORK)) if c < 0.02 else ("sw", rng.choice(WORK), R_BASE, 4 * rng.randrange(NWORDS)) if c < 0.04 else gen_alu(rng))
+    if rng.random() < 0.6:
+      a, b = rng.choice(WORK + [0]), rng.choice(WORK + [0])
+      prog.append(("bne", a, b, 4 * (k + 1)))            # forward: skips the filler when taken
+      prog.extend(filler)
+    else:
+      prog.append(("addi", R_CNT, 0, rng.randrange(1, 3)))
+      prog.extend(filler)
+      prog.append(("addi", R_CNT, R_CNT, -1))
+      prog.append(("bne", R_CNT, 0, -4 * (k + 1)))       # backward over the filler
+    far = True
+  else:
+    far = False
   for r in WORK:      # make the architectural state observable
     prog.append(("csrw", rv0ref.PROC2MNGR, r))
   for w in range(0, NWORDS, 3):
     prog.append(("lw", 1, R_BASE, 4 * w)); prog.append(("csrw", rv0ref.PROC2MNGR, 1))
   prog.append(("addi", R_SPIN, 0, 1))
   prog.append(("bne", R_SPIN, 0, 0))
+  assert rv0ref.RESET_PC + 4 * len(prog) < BASE_DATA
   return prog
 
 
@@ -195,6 +215,13 @@ def check_encoder(sh):
            (("sll", 9, 8, 7), "sll x9, x8, x7"), (("srl", 9, 8, 7), "srl x9, x8, x7"), (("lw", 4, 29, 12), "lw x4, 12(x29)"),
            (("sw", 4, 29, 60), "sw x4, 60(x29)"), (("csrr", 3, 0xFC0), "csrr x3, mngr2proc"),
            (("csrw", 0x7C0, 3), "csrw proc2mngr, x3")]
+  for off in (8, -8, 2044, 2048, 2052, 4092, -2048, -2052, -4096):
+    try:
+      w = int(assemble_inst({"far": 0x1000 + off}, 0x1000, "bne x1, x2, far"))
+      sh.count("encoder_crosschecks")
+      if w != rv0ref.encode(("bne", 1, 2, off)): sh.inconclusive("harness-encoder-disagrees-with-repo-assembler:bne %d" % off)
+    except Exception:
+      sh.inconclusive("repo-assembler-raised")
   for inst, text in cases:
     try:
       w = int(assemble_inst({}, 0x200, text))
@@ -222,6 +249,7 @@ def run_program(sh, rng, case, monitor_only=False):
   exp_out = ref.out
   exp_img = [ref.mem.get(BASE_DATA + 4 * i, 0) for i in range(NWORDS)]
   taken = sum(1 for i in prog if i[0] == "bne")
+  if any(i[0] == "bne" and abs(i[3]) >= 2048 for i in prog): sh.count("programs_with_far_branches")
   sh.count("dynamic_instructions", ref.steps)
   sh.count("loads", sum(1 for i in prog if i[0] == "lw")); sh.count("stores", len(ref.stores))
   ok_all = True
